@@ -226,6 +226,18 @@ func runCheck(opts checkOpts) int {
 				toolErr = true
 			}
 		}
+		// cross-check of the trusted base: the replay oracles (executable twins written from the
+		// BIP text, independent of the contracts) search for a failing input on this very tree;
+		// finding one although every obligation was discharged means a contract, an axiom or an
+		// assumed dependency contract is wrong
+		if len(order) == 0 && prop != "C17" {
+			res, cmdline, note := p.runHarness(prop, "thorough-cross-check", map[string]string{}, opts)
+			p.crossCheck = map[string]interface{}{"what": "bounded search with the replay oracles on the unchanged tree (not proof)", "cmd": cmdline, "result": res, "note": note}
+			if f, ok := res["found"].(bool); ok && f {
+				fmt.Printf("bipverif: INCONSISTENCY: every obligation of %s was discharged but the replay search exhibits a failing input: %v\n", prop, res)
+				toolErr = true
+			}
+		}
 		bn, err := p.runBenign(opts)
 		p.benign = bn
 		if err != nil {
